@@ -229,6 +229,35 @@ func (w *World) VerifyFunc(key string) (vc *VC, err error) {
 				o.Src = cl.Src
 			}
 		}
+		// per-field completeness: every field of the named struct must be
+		// mentioned by some ensures clause (a field added later cannot be
+		// left stale silently)
+		if af := fc.Opts["allfields"]; af != "" {
+			parts := strings.SplitN(af, ":", 2)
+			if len(parts) == 2 {
+				if t, e := w.resolveType(parts[0], env.pkg); e == nil {
+					if st, ok := w.repoStruct(t); ok {
+						lbl := fc.Opts["allfields-label"]
+						for i := 0; i < st.NumFields(); i++ {
+							name := st.Field(i).Name()
+							found := false
+							for _, cl := range fc.Ensures {
+								if strings.Contains(cl.Src, parts[1]+"."+name) {
+									found = true
+								}
+							}
+							if !found {
+								ps := fr.props()
+								if lbl != "" {
+									ps = append([]string{lbl}, ps...)
+								}
+								vc.oblige("post", fmt.Sprintf("post/%s/field-not-specified:%s", fname, name), ps, out.reach, False, fr.pos(fn.Pos()))
+							}
+						}
+					}
+				}
+			}
+		}
 		if len(fc.Ensures) > 0 {
 			o := vc.oblige("cover", "cover/"+fname+"/return", fr.props(), out.reach, False, "")
 			if o != nil {
